@@ -253,7 +253,7 @@ CLAIMED: dict[str, tuple[str, str, str, str]] = {
             "statement, 1..3 copies, identifier renaming, a sibling file binding the example's identifiers), which "
             "embeddings are valid for which kind of fragment, where every copy starts (Start) and the verdict of a "
             "file (documented occurrences shifted to every copy, nothing else inside a copy, nothing on filler "
-            "lines); TLC checks the laws of that requirement on every embedding (7 371 quick / 49 k thorough) and "
+            "lines); TLC checks the laws of that requirement on every embedding (38 k quick / 58 k thorough: up to 3 copies, one filler block before) and "
             "emits them; every usable source fence of docs/*-linter.md (430 examples in a curated catalogue, text "
             "re-read from the docs at run time; explicit doc claims override the recorded baseline) is rendered "
             "under sampled valid embeddings (Python / TypeScript / Rust renderers, layout cross-checked against "
